@@ -65,14 +65,15 @@ def gen_cases(chk):
     for t in ((300,), (30, 40), (10, 16, 24), (4, 6, 10, 12)):
         dims = ",".join("%x" % v for v in [0] * (5 - len(t)) + list(t))
         for ty in (0, 1):
-            for g, span in ((3, 30), (3, 3), (1, 3), (4, 3), (5, 3), (8, 3)):
+            for g, span in ((3, 30), (3, 3), (1, 3), (4, 3), (5, 3), (8, 3), (11, 3)):
                 for r in (1e-3, 1e-2):
-                    cases.append("pw %x %s %s %s %d %x %d" % (ty, dims, dbits(r), rng.choice(("szMode=SZ_BEST_SPEED", "-")), g, rng.getrandbits(16), span))
+                    for _k in range(4 if g == 11 else 1):       # sign changes between slices and rows: both parities, with and without zeros at slice origins
+                        cases.append("pw %x %s %s %s %d %x %d" % (ty, dims, dbits(r), rng.choice(("szMode=SZ_BEST_SPEED", "-")), g, rng.getrandbits(16), span))
     n = 1500 if thorough else 260
     for _ in range(n):
         t = rng.choice(SHAPES)
         dims = ",".join("%x" % v for v in [0] * (5 - len(t)) + list(t))
-        cases.append("pw %x %s %s %s %d %x %d" % (rng.choice((0, 1)), dims, dbits(rng.choice(RATIOS)), rng.choice(CFGS), rng.choice((0, 1, 2, 3, 4, 5, 6, 7, 8, 9, 10)),
+        cases.append("pw %x %s %s %s %d %x %d" % (rng.choice((0, 1)), dims, dbits(rng.choice(RATIOS)), rng.choice(CFGS), rng.choice((0, 1, 2, 3, 4, 5, 6, 7, 8, 9, 10, 11)),
                                                     rng.getrandbits(16), rng.choice((3, 30, 100))))
     return cases
 
